@@ -52,12 +52,24 @@ Definition add_pend (d : dworld) (i : N) (off : nat) (data : bytes) : dworld :=
             dpend := dpend d ++ [(i, off, data)]; dbs := dbs d; dunspec := dunspec d |}
   end.
 
-(* sync_dir d: d's own entry, and exactly d's current children, are durable *)
+(* sync_dir d: d's own entry, and exactly d's current children, are durable.
+   A regular file has one durable name: when an entry for inode i becomes
+   durable under a new name (a rename made durable), the old durable name of i
+   is dropped with it. *)
+Definition taken (t : sworld) (p : path) (x : path * entry) : bool :=
+  match snd x with
+  | EFile i => existsb (fun q => negb (path_eqb q (fst x))
+                                 && match nget (names t) q with Some (EFile j) => j =? i | _ => false end)
+                       (children t p)
+  | EDir => false
+  end.
+
 Definition dir_sync (d : dworld) (p : path) : dworld :=
   let t := dw d in
   let kept := filter (fun x => negb (child_of (fst x) p) || match nget (names t) (fst x) with Some _ => true | None => false end)
                      (dents d) in
-  let own := nset kept p EDir in
+  let kept1 := filter (fun x => negb (taken t p x)) kept in
+  let own := nset kept1 p EDir in
   {| dw := t;
      dents := fold_left (fun m q => match nget (names t) q with Some e => nset m q e | None => m end)
                         (children t p) own;
